@@ -1,6 +1,7 @@
 import IpaVerif.Model.CircularBuf
 import IpaVerif.Proofs.CircularBuf
 import IpaVerif.Proofs.OrderingSender
+import IpaVerif.Proofs.UnorderedReceiver
 /-!
 # C14 — send and receive buffers behave as an ordered byte queue under all interleavings
 
@@ -344,4 +345,178 @@ example : ∃ s0, State.new 4 2 2 = .ok s0 ∧
 
 end Sender
 
+/-! ## Part (c): `UnorderedReceiver` -/
+section Receiver
+open IpaVerif.UnorderedReceiver
+
+/-- What an observer knows: bytes fed so far, number of requests fulfilled, whether the stream ended. -/
+structure RGhost where
+  fed : List Nat := []
+  next : Nat := 0
+  ended : Bool := false
+
+def RGhost.after (g : RGhost) (op : UnorderedReceiver.Op) (o : UnorderedReceiver.Out) : RGhost :=
+  match op, o.res with
+  | .feed c, _ => { g with fed := g.fed ++ c }
+  | .finish, _ => { g with ended := true }
+  | .recv _ _, .ok _ => { g with next := g.next + 1 }
+  | .recv _ _, _ => g
+
+/-- The specification of one poll in terms of the observer's knowledge only. -/
+def recvItemOk (sz : Nat) (g : RGhost) (op : UnorderedReceiver.Op) (o : UnorderedReceiver.Out) : Prop :=
+  match op with
+  | .recv _ i =>
+    (∀ m, o.res = .ok m → i = g.next ∧ m = (g.fed.drop (i * sz)).take sz ∧ (i + 1) * sz ≤ g.fed.length) ∧
+    (∀ n, o.res = .eos n → n = i ∧ i = g.next ∧ g.ended = true ∧ g.fed.length < (i + 1) * sz) ∧
+    (o.res = .pending → i > g.next ∨ (i = g.next ∧ g.ended = false ∧ g.fed.length < (i + 1) * sz)) ∧
+    o.res ≠ .none
+  | _ => True
+
+def recvTraceOk (sz : Nat) : RGhost → List UnorderedReceiver.Op → List (Except String UnorderedReceiver.Out) → Prop
+  | _, [], [] => True
+  | g, op :: ops, .ok o :: tr => recvItemOk sz g op o ∧ recvTraceOk sz (g.after op o) ops tr
+  | g, op :: _, [.error _] => ∃ t i, op = .recv t i ∧ i < g.next
+  | _, _, _ => False
+
+theorem recv_run_ok (ops : List UnorderedReceiver.Op) : ∀ {s : State} {g : RGhost},
+    RInv s g.fed → s.next = g.next → s.ended = g.ended →
+    recvTraceOk s.sz g ops (UnorderedReceiver.run s ops) := by
+  induction ops with
+  | nil => intros; exact trivial
+  | cons op rest ih =>
+    intro s g h hn he
+    simp only [UnorderedReceiver.run]
+    cases hs : UnorderedReceiver.step s op with
+    | error e =>
+      -- the only panic: a request that was already fulfilled
+      cases op with
+      | feed c => simp [UnorderedReceiver.step] at hs
+      | finish => simp [UnorderedReceiver.step] at hs
+      | recv t i =>
+        refine ⟨t, i, rfl, ?_⟩
+        simp only [UnorderedReceiver.step] at hs
+        split at hs
+        · split at hs
+          · cases hs
+          · split at hs
+            · cases hs
+            · split at hs <;> cases hs
+        · split at hs
+          · cases hs
+          · omega
+    | ok x =>
+      obtain ⟨s', o⟩ := x
+      obtain ⟨hinv', hsz, hcap, hrecv⟩ := recv_step h hs
+      refine ⟨?_, ?_⟩
+      · cases op with
+        | feed c => trivial
+        | finish => trivial
+        | recv t i =>
+          have hr := hrecv t i rfl
+          refine ⟨?_, ?_, ?_, hr.not_none⟩
+          · intro m hm
+            obtain ⟨a, b, c, _⟩ := hr.ok_slice m hm
+            exact ⟨by omega, b, c⟩
+          · intro n hn'
+            obtain ⟨a, b, c, d⟩ := hr.eos_short n hn'
+            exact ⟨a, by omega, by rw [← he]; exact c, d⟩
+          · intro hp
+            rcases hr.pending hp with h1 | ⟨h1, h2, h3⟩
+            · left; omega
+            · right; exact ⟨by omega, by rw [← he]; exact h2, h3⟩
+      · rw [← hsz]
+        obtain ⟨hend, hnext⟩ := step_fields hs
+        apply ih
+        · cases op with
+          | feed c => simpa [RGhost.after, fedAfter] using hinv'
+          | finish => simpa [RGhost.after, fedAfter] using hinv'
+          | recv t i =>
+            simp only [fedAfter] at hinv'
+            cases hres : o.res <;> simp only [RGhost.after, hres] <;> exact hinv'
+        · cases op with
+          | feed c => simp only [UnorderedReceiver.step] at hs; cases hs; exact hn
+          | finish => simp only [UnorderedReceiver.step] at hs; cases hs; exact hn
+          | recv t i => cases hres : o.res <;> simp only [RGhost.after, hres] at hnext ⊢ <;> omega
+        · cases op with
+          | feed c => simp only [RGhost.after] at hend ⊢; rw [hend, he]
+          | finish => simp only [RGhost.after] at hend ⊢; exact hend
+          | recv t i => cases hres : o.res <;> simp only [RGhost.after, hres] at hend ⊢ <;> rw [hend, he]
+
+theorem RInv_init {sz cap : Nat} {s0 : State} (h : State.new sz cap = .ok s0) :
+    RInv s0 [] ∧ s0.next = 0 ∧ s0.ended = false ∧ s0.sz = sz ∧ s0.cap = cap := by
+  unfold State.new Generated.Buffers.receiverMinCapacity at h
+  split at h
+  · cases h
+  · cases h
+    refine ⟨⟨by simp only []; omega, Nat.le_refl _, by simp [State.remaining], by simp, ?_, ?_⟩, rfl, rfl, rfl, rfl⟩
+    · intro k w j hk; cases hk
+    · intro w j hm; cases hm
+
+/-- **Indexing.**  For every message size, capacity ≥ 2, every chunking of the byte stream (empty
+chunks included) and every order and timing of `recv(i)` polls relative to the arrival of data:
+a poll of `recv(i)` that resolves returns exactly bytes `[i·sz, (i+1)·sz)` of the stream, requests
+resolve in index order, `recv(i)` stays pending only while it is not its turn or the bytes have not
+arrived, `EndOfStream(i)` is returned only to the request whose turn it is, after the stream ended
+with fewer than `(i+1)·sz` bytes, and the only panic is polling a request already fulfilled. -/
+theorem receiver_indexing {sz cap : Nat} {s0 : State} (hnew : State.new sz cap = .ok s0)
+    (ops : List UnorderedReceiver.Op) :
+    recvTraceOk sz {} ops (UnorderedReceiver.run s0 ops) := by
+  obtain ⟨h1, h2, h3, h4, _⟩ := RInv_init hnew
+  have := recv_run_ok ops (s := s0) (g := {}) h1 h2 h3
+  rw [h4] at this
+  exact this
+
+theorem exec_inv (ops : List UnorderedReceiver.Op) : ∀ {s s' : State} {fed : List Nat},
+    RInv s fed → UnorderedReceiver.exec s ops = .ok s' → ∃ fed', RInv s' fed' ∧ s'.cap = s.cap := by
+  induction ops with
+  | nil => intro s s' fed h he; cases he; exact ⟨fed, h, rfl⟩
+  | cons op rest ih =>
+    intro s s' fed h he
+    simp only [UnorderedReceiver.exec] at he
+    cases hs : UnorderedReceiver.step s op with
+    | error e => rw [hs] at he; cases he
+    | ok x =>
+      obtain ⟨s1, o⟩ := x
+      rw [hs] at he
+      obtain ⟨hinv', _, hcap, _⟩ := recv_step h hs
+      obtain ⟨fed', h', hc'⟩ := ih hinv' he
+      exact ⟨fed', h', by rw [hc', hcap]⟩
+
+/-- **Wake-ups.**  In every reachable state (any chunking, any order/timing of polls) a parked
+request `j` is strictly ahead of `next`: it sits in ring slot `j % c` if `j ≤ next + c`, otherwise in
+the overflow list with `j > ⌊next⌋_{c/2} + c`; so no request whose turn has come is ever left
+parked.  When request `next` resolves, the waker parked for `next + 1` (necessarily in the ring, at
+the slot `wake_next` looks at) is woken in that same poll, and the whole overflow list is woken
+whenever the new `next` is a multiple of `c/2` — before any overflowed index can become `next`. -/
+theorem receiver_wakeups {sz cap : Nat} {s0 s : State} (hnew : State.new sz cap = .ok s0)
+    (ops : List UnorderedReceiver.Op) (h : UnorderedReceiver.exec s0 ops = .ok s) :
+    (∀ k w j, s.ring k = some (w, j) → j % cap = k ∧ s.next < j ∧ j ≤ s.next + cap) ∧
+    (∀ w j, (w, j) ∈ s.overflow → j > s.next - s.next % (cap / 2) + cap ∧ j > s.next) ∧
+    (∀ t s' o m, UnorderedReceiver.step s (.recv t s.next) = .ok (s', o) → o.res = .ok m →
+      (∀ w0 j, s.ring ((s.next + 1) % cap) = some (w0, j) → j = s.next + 1 ∧ w0 ∈ o.woken) ∧
+      ((s.next + 1) % (cap / 2) = 0 → ∀ w j, (w, j) ∈ s.overflow → w ∈ o.woken)) := by
+  obtain ⟨h1, _, _, _, h5⟩ := RInv_init hnew
+  obtain ⟨fed, hinv, hcap⟩ := exec_inv ops h1 h
+  rw [h5] at hcap
+  rw [← hcap]
+  refine ⟨hinv.ring, ?_, ?_⟩
+  · intro w j hm
+    have := hinv.ov w j hm
+    have h2 := Nat.mod_le s.next (s.cap / 2)
+    have hh : 0 < s.cap / 2 := Nat.div_pos hinv.hcap (by omega)
+    have h3 := Nat.mod_lt s.next hh
+    have h4 : s.cap / 2 ≤ s.cap := Nat.div_le_self _ _
+    exact ⟨this, by omega⟩
+  · intro t s' o m hs hres
+    obtain ⟨_, _, _, hrecv⟩ := recv_step hinv hs
+    have hr := hrecv t s.next rfl
+    exact ⟨hr.wake_ring m hres, fun h0 w j hm => hr.wake_overflow m hres h0 w j hm⟩
+
+example : ∃ s0, State.new 2 2 = .ok s0 ∧
+    (UnorderedReceiver.run s0 [.recv 1 1, .recv 3 3, .feed [1], .feed [2, 3, 4], .recv 0 0]).map
+      (fun r => r.toOption) =
+    [some ⟨.pending, []⟩, some ⟨.pending, []⟩, some ⟨.none, []⟩, some ⟨.none, []⟩, some ⟨.ok [1, 2], [1, 3]⟩] :=
+  ⟨_, rfl, by decide⟩
+
+end Receiver
 end IpaVerif.C14
